@@ -38,6 +38,7 @@ def split_clean(ver, c, with_prefix=True):
 
 def check_object(P, ver, s, order_log=None):
     """Structure, re-parse and foreign-comparison monitors on one accepted string."""
+    P.remember({"ver": ver, "vector": s})
     L = lib()
     P.evaluations += 1
     case = {"ver": ver, "vector": s}
@@ -188,6 +189,8 @@ def check_pair(P, va, sa, vb, sb, kind="?"):
 
 
 def check_case(P, case):
+    if "pickled_under_hashseed" in case:
+        return  # (needs the producing process: --replay re-runs the shard recorded in the witness)
     if "pair" in case or "a" in case:
         (va, sa), (vb, sb) = case["a"], case["b"]
         check_pair(P, va, sa, vb, sb, case.get("kind", "?"))
@@ -329,6 +332,79 @@ def replay(R, w):
     order_verdict(R.P)
 
 
+def pickled_vectors(seed, n):
+    import random
+    rng = random.Random("C07-pickled-%s" % seed)
+    out = []
+    for ver in T.VERSIONS:
+        for _ in range(n):
+            p, m, s = V.rand_vector(rng, ver, p_opt=rng.choice((0.0, 0.5, 0.9)))
+            out.append((ver, s))
+    return out
+
+
+def pickle_child(seed, n):
+    """Runs in ANOTHER process (its own hash seed): builds the objects, uses them the way a producer would
+    (hashes them, puts them in a set, reads their accessors) and writes their pickles to stdout."""
+    import base64
+    import pickle
+    import sys
+    L = lib()
+    out = []
+    for ver, s in pickled_vectors(seed, n):
+        o = L.CLS[ver](s)
+        hash(o)
+        len({o, L.CLS[ver](s)})
+        o.clean_vector(), o.scores(), o.as_json(sort=True)
+        try:
+            out.append(base64.b64encode(pickle.dumps(o, 2)).decode("ascii"))
+        except Exception as e:
+            out.append("!" + repr(e))
+    sys.stdout.write("\n".join(out))
+
+
+def shard_pickled(P, n, seed, hashseed):
+    """Equality and hash of an object that was built, hashed and pickled in another process (other hash
+    seed) and unpickled here: it must equal, and hash like, the object built here from the same string.
+    Pickling or unpickling that raises is not judged (no property promises it)."""
+    import base64
+    import os
+    import pickle
+    import subprocess
+    import sys
+    from .. import bootstrap
+    env = dict(os.environ)
+    env.update({"PYTHONHASHSEED": str(hashseed), "PYTHONDONTWRITEBYTECODE": "1"})
+    p = subprocess.run([sys.executable, "-B", "-c", "from vmon.monitors import C07; C07.pickle_child(%r, %d)" % (seed, n)],
+                       cwd=bootstrap.VERIF, env=env, stdout=subprocess.PIPE, stderr=subprocess.PIPE, timeout=600)
+    if p.returncode != 0:
+        P.notes.append("INCONCLUSIVE:pickle child failed: %s" % p.stderr.decode("utf-8", "replace")[-300:])
+        return
+    L = lib()
+    lines = p.stdout.decode("ascii").split("\n")
+    for (ver, s), b in zip(pickled_vectors(seed, n), lines):
+        P.evaluations += 1
+        if b.startswith("!"):
+            P.stratum("pickling-not-supported")
+            continue
+        ok, o = obs.call(lambda: pickle.loads(base64.b64decode(b)))
+        if not ok or type(o) is not L.CLS[ver]:
+            P.stratum("unpickling-not-supported")
+            continue
+        P.ev("unpickled-from-another-process")
+        P.dist(("pickled", ver, s))
+        case = {"ver": ver, "vector": s, "pickled_under_hashseed": hashseed}
+        fresh = L.CLS[ver](s)
+        ok, r = obs.call(lambda: (o == fresh, fresh == o, hash(o) == hash(fresh), len({o, fresh}), fresh in {o: 1}, o.clean_vector() == fresh.clean_vector(),
+                                  o.scores() == fresh.scores()))
+        if not ok:
+            P.violation("eq-oracle", "C07:v%s:unpickled-object:comparison-raises:%s" % (ver, obs.exc_name(r)), case, error=repr(r))
+        elif r != (True, True, True, 1, True, True, True):
+            names = ["eq", "eq-reflected", "hash", "set-size", "dict-membership", "clean_vector", "scores"]
+            bad = [nm for nm, x, w in zip(names, r, (True, True, True, 1, True, True, True)) if x != w]
+            P.violation("eq-oracle", "C07:v%s:unpickled-object-differs-from-equal-fresh-object:%s" % (ver, "+".join(bad[:2])), case, observed=repr(r))
+
+
 def run(R):
     _run(R)
     # objects the LIBRARY builds itself (text extractor, from_rh_vector, CLI, the repository's own tests)
@@ -346,6 +422,7 @@ def _run(R):
     n = R.pick(140, 2600)
     for ver in T.VERSIONS:
         R.pmap("shard", [(ver, i, n, R.seed) for i in range(16)])
+    R.pmap("shard_pickled", [(R.pick(60, 2000), R.seed, hs) for hs in ("12345", "1", "random")])
     order_verdict(R.P)
 
 
